@@ -26,7 +26,7 @@ Definition obs_xdis_findlabels (T : optable) (code : list Z) : list Z :=
 From Xdis Require Import Spec.Dis Model.Resolve.
 Definition marker_tabs (ncmp : Z) : tabs :=
   {| tb_consts := map (fun i => 1000 + Z.of_nat i) (seq 0 30); tb_names := map (fun i => 110000 + Z.of_nat i) (seq 0 20);
-     tb_vars := map (fun i => 118000 + Z.of_nat i) (seq 0 4); tb_cells := [118000; 99001]; tb_frees := [102000]; tb_ncmp := ncmp |}.
+     tb_vars := map (fun i => 118000 + Z.of_nat i) (seq 0 4); tb_cells := [118000; 99001]; tb_frees := [102000; 118001]; tb_ncmp := ncmp |}.
 
 Definition obs_rows (rows : list (list Z)) : list Z :=
   if existsb (fun r => match r with _ :: 8 :: _ => true | _ => false end) rows then [1; 4]
